@@ -929,19 +929,54 @@ def opt_gate(repo, res):
     ii = repo.mod("ffcx.ir.integral").func("_compute_integral_ir")
     key = f"{ii.key}:tolerances"
     res.ob(key)
-    s = ast.unparse(ii.node)
-    if "rtol=p['table_rtol']" not in s or "atol=p['table_atol']" not in s:
-        res.fail(key, "table_rtol / table_atol are not forwarded to the table builder", "ffcx/ir/integral.py")
+    def _bind(call, callee):
+        ps = list(callee.params)
+        b_ = {ps[i]: a for i, a in enumerate(call.args) if i < len(ps)}
+        b_.update({k.arg: k.value for k in call.keywords if k.arg})
+        return b_
+
+    bt_calls = [c for c in calls_in(ii.node) if (call_name(c) or "").endswith("build_optimized_tables")]
+    isl = Slicer(ii.node)
+    if len(bt_calls) != 1:
+        raise AnalysisError("_compute_integral_ir: call of build_optimized_tables not found")
+    bb = _bind(bt_calls[0], f)
+    for par, opt in (("rtol", "table_rtol"), ("atol", "table_atol")):
+        a_ = bb.get(par)
+        if a_ is None or f"['{opt}']" not in isl.text(a_).replace('"', "'"):
+            res.fail(key, f"build_optimized_tables(... {par}={ast.unparse(a_) if a_ is not None else 'default'} ...): the option {opt} is not forwarded to the table builder",
+                     "ffcx/ir/integral.py")
     key = f"{f.key}:clamp"
     res.ob(key)
-    if "clamp_table_small_numbers(t['array'], rtol=rtol, atol=atol)" not in ast.unparse(f.node):
-        res.fail(key, "table values are not clamped with the configured tolerances", et.line(f.node))
     cl = et.func("clamp_table_small_numbers")
+    cl_calls = [c for c in calls_in(f.node) if (call_name(c) or "").endswith("clamp_table_small_numbers")]
+    if not cl_calls:
+        res.fail(key, "table values are not clamped at all", et.line(f.node))
+    fsl = Slicer(f.node)
+    for c in cl_calls:
+        cb_ = _bind(c, cl)
+        for par in ("rtol", "atol"):
+            a_ = cb_.get(par)
+            if a_ is None or par not in fsl.param_roots(a_):
+                res.fail(key, f"clamp_table_small_numbers is called with {par}={ast.unparse(a_) if a_ is not None else 'its default'}, not with the configured tolerance", et.line(c))
+        if "numbers" in cb_:
+            res.fail(key, f"clamp targets are overridden at the call (`{ast.unparse(cb_['numbers'])}`)", et.line(c))
     key = f"{cl.key}:targets"
     res.ob(key)
-    s = ast.unparse(cl.node)
-    if "numbers=(-1.0, 0.0, 1.0)" not in s or "np.isclose(table, n, rtol=rtol, atol=atol)" not in s:
-        res.fail(key, "clamping does not move values to -1, 0, 1 within (rtol, atol) only", et.line(cl.node))
+    dflt = dict(zip(reversed([a.arg for a in cl.node.args.args]), reversed(cl.node.args.defaults)))
+    try:
+        nums = tuple(const_value(dflt["numbers"])) if "numbers" in dflt else None
+    except ValueError:
+        nums = None
+    if nums is None or sorted(nums) != [-1.0, 0.0, 1.0]:
+        res.fail(key, f"clamp targets are {nums}, expected -1, 0, 1", et.line(cl.node))
+    close = [c for c in calls_in(cl.node) if (call_name(c) or "").split(".")[-1] in ("isclose", "allclose")]
+    ok_close = False
+    for c in close:
+        kw_ = {k.arg: ast.unparse(k.value) for k in c.keywords}
+        if kw_.get("rtol") == "rtol" and kw_.get("atol") == "atol":
+            ok_close = True
+    if not ok_close:
+        res.fail(key, "values are not compared with the targets under the function's own (rtol, atol)", et.line(cl.node))
     # options table: every option consumed or inert
     om = repo.mod("ffcx.options")
     declared = set(const_value(k) for k in om.assign("FFCX_DEFAULT_OPTIONS").keys)
